@@ -14,11 +14,38 @@ LEVEL = 'exploration'
 CV = re.compile(r'<<"CV", (\d+), "(\w+)">>')
 
 
-def make_param(name):
+MAG = {'unit': 1.0, 'big': 1e6, 'huge': 1e30, 'tiny': 1e-9}
+
+
+def class_bounds(cls, rng):
+  """Concrete bounds inside a class of Converter.tla (seeded)."""
+  base = MAG[cls['mag']]
+  lo = base * rng.uniform(0.1, 1.0)
+  hi = lo * (rng.uniform(3.0, 100.0) if cls['width'] == 'wide' else 1.0 + 3e-7 * rng.uniform(1.0, 3.0))
+  if cls['sign'] == 'pos':
+    return lo, hi
+  if cls['sign'] == 'neg':
+    return -hi, -lo
+  return (-lo, hi - lo) if cls['width'] == 'wide' else (-(hi - lo), (hi - lo) * rng.uniform(0.5, 2.0))
+
+
+def make_param(name, cls=None, rng=None):
   from vizier import pyvizier as vz
   sp = vz.SearchSpace()
   r = sp.root
-  if name == 'D_unit':
+  if name == 'D_class':
+    lo, hi = class_bounds(cls, rng)
+    r.add_float_param('p', lo, hi, scale_type=getattr(vz.ScaleType, cls['st']))
+  elif name == 'I_class':
+    # magnitudes up to 1e6 only: float32 represents integers exactly up to 2^24
+    lo = int(round(MAG['big'] * rng.uniform(0.1, 1.0))) if cls['mag'] == 'big' else 1
+    lo = {'pos': lo, 'neg': -(lo + 5), 'cross': -2}[cls['sign']]
+    r.add_int_param('p', lo, lo + 5, scale_type=getattr(vz.ScaleType, cls['st']))
+  elif name == 'S_class':
+    lo, hi = class_bounds(cls, rng)
+    vals = sorted({lo, lo + (hi - lo) * 1e-4, (lo + hi) / 2.0, hi})
+    r.add_discrete_param('p', vals)
+  elif name == 'D_unit':
     r.add_float_param('p', 0.0, 1.0)
   elif name == 'D_neg':
     r.add_float_param('p', -5.0, -1.0)
@@ -69,7 +96,7 @@ def observe(case, expected, rng):
   from vizier import pyvizier as vz
   from vizier.pyvizier import converters
   shape = case['shape']['name']
-  sp = make_param(shape)
+  sp = make_param(shape, case['shape'].get('cls'), rng)
   pc = sp.get('p')
   dtype = np.float32 if case['dtype'] == 'float32' else np.float64
   conv = converters.DefaultModelInputConverter(pc, scale=case['scale'], onehot_embed=case['onehot'], pad_oovs=case['pad'],
@@ -84,7 +111,7 @@ def observe(case, expected, rng):
     if b is None:
       ok = False
     elif pc.type.name == 'DOUBLE':
-      ok = abs(b.value - v) <= tol * max(1.0, abs(v))
+      ok = abs(b.value - v) <= tol * max(1.0, abs(v), abs(pc.bounds[0]), abs(pc.bounds[1]))
     else:
       ok = b.value == v and (isinstance(v, str) == isinstance(b.value, str))
     f64 = [float(x) for x in np.atleast_1d(f)]
@@ -107,7 +134,8 @@ def observe(case, expected, rng):
     except Exception as e:  # pylint: disable=broad-except
       decoded.append({'present': False, 'v': fkey.value_record(0), 'error': type(e).__name__})
   return {'case': case, 'expected': expected, 'refused': False, 'ncols': int(feats.shape[1]), 'rows': rows, 'decoded': decoded,
-          'param': fkey.space_record(sp)[0], 'zero': fkey.key(0.0), 'one': fkey.key(1.0)}
+          'param': fkey.space_record(sp)[0], 'zero': fkey.key(0.0), 'one': fkey.key(1.0),
+          'lo01': fkey.key(-(1e-4 if case['dtype'] == 'float32' else 1e-8)), 'hi01': fkey.key(1.0 + (1e-4 if case['dtype'] == 'float32' else 1e-8))}
 
 
 def labels(ctx):
@@ -150,7 +178,7 @@ def run(ctx):
         obs.append(observe(r['case'], r['expected'], rng))
       except Exception as e:  # pylint: disable=broad-except
         obs.append({'case': r['case'], 'expected': r['expected'], 'refused': True, 'ncols': 0, 'rows': [], 'decoded': [],
-                    'param': {'type': 'NONE'}, 'zero': fkey.key(0.0), 'one': fkey.key(1.0), 'error': '%s: %s' % (type(e).__name__, str(e)[:120])})
+                    'param': {'type': 'NONE'}, 'zero': fkey.key(0.0), 'one': fkey.key(1.0), 'lo01': fkey.key(0.0), 'hi01': fkey.key(1.0), 'error': '%s: %s' % (type(e).__name__, str(e)[:120])})
     path = os.path.join(d, 'cv_obs.json')
     with open(path, 'w') as f:
       json.dump(obs, f)
